@@ -49,7 +49,10 @@ static unsigned depth_now(addrxlat_ctx_t *ctx)
 	for (p = ctx->inflight; p && n < 100000; p = p->next) ++n;
 	return n;
 }
-static void put_page(const addrxlat_buffer_t *buf) { free((void *)buf->ptr); }
+/* give-back ledger of the callback: buffers delivered (status OK) / put_page calls; `lost` accumulates the
+ * difference over the contexts that were destroyed (cleanup_cache has run) since the last `newctx` line */
+static unsigned delivered, returned; static long lost;
+static void put_page(const addrxlat_buffer_t *buf) { ++returned; free((void *)buf->ptr); }
 static addrxlat_sys_t *sys;
 static addrxlat_status get_page(const addrxlat_cb_t *cb, addrxlat_buffer_t *buf)
 {
@@ -91,6 +94,7 @@ static addrxlat_status get_page(const addrxlat_cb_t *cb, addrxlat_buffer_t *buf)
 			if (bad[i].st == 1000) {	/* success without data */
 				buf->addr.as = want.as; buf->addr.addr = page; buf->ptr = NULL;
 				buf->size = 4096; buf->byte_order = ADDRXLAT_HOST_ENDIAN;
+				buf->put_page = put_page; ++delivered;
 				return ADDRXLAT_OK;
 			}
 			return addrxlat_ctx_err(cb->priv, bad[i].st, "page not available");
@@ -104,7 +108,7 @@ static addrxlat_status get_page(const addrxlat_cb_t *cb, addrxlat_buffer_t *buf)
 	buf->addr.as = want.as; buf->addr.addr = page;
 	buf->ptr = p; buf->size = 4096;
 	buf->byte_order = be ? ADDRXLAT_BIG_ENDIAN : ADDRXLAT_LITTLE_ENDIAN;
-	buf->put_page = put_page;
+	buf->put_page = put_page; ++delivered;
 	--gp_depth;
 	return ADDRXLAT_OK;
 }
@@ -123,7 +127,12 @@ static addrxlat_status the_op(void *data, const addrxlat_fulladdr_t *fa)
 static addrxlat_ctx_t *ctx; static addrxlat_cb_t *cb;
 static void new_ctx(void)
 {
-	if (ctx) addrxlat_ctx_decref(ctx);
+	if (ctx) {
+		/* the last reference: cleanup_cache() gives back every page the cache still holds */
+		addrxlat_ctx_decref(ctx);
+		lost += (long)delivered - (long)returned;
+		delivered = returned = 0;
+	}
 	ctx = addrxlat_ctx_new(); cb = addrxlat_ctx_add_cb(ctx);
 	cb->priv = ctx; cb->get_page = get_page; cb->read_caps = read_caps;
 }
@@ -200,6 +209,7 @@ int main(void)
 			new_ctx();
 		} else if (!strncmp(line, "newctx", 6)) {
 			new_ctx();
+			printf("> newctx lost=%ld\n", lost); lost = 0;
 		} else if (!strncmp(line, "reent off", 9)) {
 			nreent = 0;
 		} else if (sscanf(line, "reentsys %d", &t) == 1) {
@@ -218,17 +228,23 @@ int main(void)
 			m.param.memarr.base.as = t; m.param.memarr.base.addr = a;
 			m.param.memarr.shift = 0; m.param.memarr.elemsz = 8; m.param.memarr.valsz = 8;
 			step.ctx = ctx; step.sys = NULL; step.meth = &m; step.base.addr = 0;
+			unsigned d0 = delivered, r0 = returned;
 			npages = 0; gp_depth = gp_maxdepth = 0;
 			st = addrxlat_walk(&step);
 			printf("> rd %s", xstatus_name(st));
 			if (st == ADDRXLAT_OK) printf(" %" PRIu64, (uint64_t)step.raw.addr);
-			printf(" gp=%u nest=%u mru=", npages, gp_maxdepth);
+			printf(" gp=%u nest=%u got=%u put=%u mru=", npages, gp_maxdepth, delivered - d0, returned - r0);
 			for (i = 0, sl = ctx->cache.mru; i < READ_CACHE_SLOTS; ++i, sl = sl->next)
 				printf("%s%d", i ? "," : "", (int)(sl - ctx->cache.slot));
 			printf(" slots=");
 			for (i = 0; i < READ_CACHE_SLOTS; ++i) {
 				const addrxlat_buffer_t *b = &ctx->cache.slot[i].buffer;
-				printf("%s%d:%" PRIu64 ":%zu:%d", i ? ";" : "", (int)b->addr.as, (uint64_t)b->addr.addr, b->size, b->ptr != NULL);
+#ifdef KDF_SLOT_FILLING	/* the working tree's struct read_cache_slot has the `filling` mark (tools/props/c09.py looks) */
+				int fl = ctx->cache.slot[i].filling != 0;
+#else
+				int fl = 0;
+#endif
+				printf("%s%d:%" PRIu64 ":%zu:%d:%d", i ? ";" : "", (int)b->addr.as, (uint64_t)b->addr.addr, b->size, b->ptr != NULL, fl);
 			}
 			putchar('\n');
 		} else if (!strncmp(line, "newsys", 6)) {
